@@ -66,6 +66,20 @@ def cases_for(tier):
             if r.random() < 0.25:
                 cfg['max_seq_len'] = r.choice([1, 2, 3])
             cases.append(('random', t, cfg))
+    # long str / bytes whose only break opportunities are punctuation (no whitespace at all), and long sequences
+    # around the lengths at which the printers decide by themselves: the tree must not depend on where - or
+    # whether - a literal is split or a sequence is broken
+    for i in range(120 if tier == 'quick' else 2000):
+        isb = i % 2 == 0
+        leaf = ('bytes' if isb else 'str', valgen.rand_punct_text(r, isb))
+        t = r.choice([leaf, ('list', [leaf, ('int', 1)]), ('dict', [(leaf, leaf)]), ('call', 'make', [leaf], [('kw', leaf)])])
+        for cfg in PC.std_cfgs(r, 2):
+            cases.append(('punct', t, cfg))
+    for ln in (49, 50, 51):
+        for t in (('list', [('int', k) for k in range(ln)]), ('tuple', [('int', 0)] * ln),
+                  ('list', [('list', [('int', k) for k in range(ln)]), ('int', 1)])):
+            for w in (79, 160, 400):
+                cases.append(('fifty', t, dict(width=w, ribbon_width=w)))
     return cases
 
 
